@@ -161,6 +161,41 @@ class P(FlowFidelity):
         tids = rng.sample([256, 257, 258, 300, 1000, 65535], rng.choice([1, 2, 2, 3]))
         return self.gen_history(g, rng, exporters, tids)
 
+    def crowded_shard(self, g, rng):
+        """ONE shard of the cache holding more than a thousand templates (a busy collector; here: one exporter announcing ~1100
+        one-field templates whose keys all hash to the shard of exporter X's template): X announces T, the crowd arrives, X
+        redefines T and sends data; a new exporter Y whose key lands in the same shard announces and sends data in one message"""
+        orc = Oracle(self.proto, g.model)
+        x = bytes([10, 9, rng.randrange(1, 255), rng.randrange(1, 255)])
+        tid = 256
+        shard = fnv1_32(x + struct.pack(">H", tid)) % 32
+        crowd = bytes([172, 16, rng.randrange(1, 255), rng.randrange(1, 255)])
+        ids = [i for i in range(300, 65000) if fnv1_32(crowd + struct.pack(">H", i)) % 32 == shard][:1100]
+        y = next(a for a in (bytes([192, 0, 2, k]) for k in range(1, 255)) if fnv1_32(a + struct.pack(">H", 300)) % 32 == shard)
+        toks, exp = [], []
+
+        def msg(a, sets, abstract):
+            p = g.enc_msg(sets)
+            toks.extend([hx(a), hx(p)])
+            recs, nf = orc.expected_sets(a, abstract)
+            exp.append({"recs": recs, "nf": nf, "header": header_of(self.proto, p), "go_rule": recs})
+        t1 = Tpl(tid, [], [(8, 0, 4)])
+        msg(x, [g.enc_set(g.tpl_set_id(False), g.enc_tpl(t1, False))], [("tpl", [(t1, False)])])
+        for k in range(0, len(ids), 160):
+            ts = [Tpl(i, [], [(1, 0, 8)]) for i in ids[k:k + 160]]
+            msg(crowd, [g.enc_set(g.tpl_set_id(False), b"".join(g.enc_tpl(t, False) for t in ts))], [("tpl", [(t, False) for t in ts])])
+        t2 = Tpl(tid, [], [(8, 0, 4), (12, 0, 4)])
+        s2, ab2 = self.data_set(g, rng, t2)
+        msg(x, [g.enc_set(g.tpl_set_id(False), g.enc_tpl(t2, False)), s2], [("tpl", [(t2, False)]), ab2])
+        s3, ab3 = self.data_set(g, rng, t2)
+        msg(x, [s3], [ab3])
+        t3 = Tpl(300, [], [(7, 0, 2), (11, 0, 2), (4, 0, 1)])
+        s4, ab4 = self.data_set(g, rng, t3)
+        msg(y, [g.enc_set(g.tpl_set_id(False), g.enc_tpl(t3, False)), s4], [("tpl", [(t3, False)]), ab4])
+        line = self.cmd + " " + " ".join(toks)
+        self.expect[line] = exp
+        return line
+
     def cases(self, tier, rng, budget):
         self.collisions = [find_collision(rng, 4) for _ in range(3)] + [find_collision(rng, 16)]
         out = []
@@ -168,6 +203,7 @@ class P(FlowFidelity):
             self.proto = proto
             self.cmd = "ipfixh" if proto == "ipfix" else "nf9h"
             g = Gen(proto, go_model(), rng)
+            out.append(self.crowded_shard(g, rng))
             out += [self.gen_sandwich(g, rng) if i % 8 == 7 else self.gen_case(g, rng) for i in range(budget // 2)]
         return out
 
